@@ -29,6 +29,11 @@ from props import _g6_c21gen as gen
 from props._g6_common import ConfirmCtx, run_diff, storm_note
 
 LEVEL = 'exploration'
+# The thorough tier (11.4k programs, extra site kinds F/M/R) is not registered: its last run on the final tree (8 min, 16
+# workers) ended with six un-triaged keys `C21|?|compiled-completes@{F,M,R,epilogue-bare-x}` (lenient-mode reads of names that
+# CPython reports as NameError/UnboundLocalError); whether they are the known [ctyped] inference class under a key without
+# its marker or a new root cause could not be settled in the time left, so nothing is claimed for that tier.
+NO_THOROUGH = True
 ENGINE = 'E2 diffexplore'
 TECHNIQUE = 'exhaustive statement-grammar programs over {x,y} x all branch/loop-count digit vectors, compiled (2 configs) vs CPython on identical source'
 LEVEL_TEXT = ('Every function body of the grammar {x=1, del x, read x; thorough: y=x, conditional raise/return, closure/lambda/'
